@@ -5,6 +5,8 @@ the depth bound. Oracle (differential, no hand-written expectation): the probe's
 post-state on the engine that ran the prefix equal those on a FRESH engine opened on a copy of
 the same database.
 """
+import struct
+import pickle
 import itertools
 import os
 
@@ -233,6 +235,99 @@ def _seed_db():
     return _SEED
 
 
+# ---- the fresh-engine answer comes from a PRISTINE process ---------------------------------------------
+# A fresh engine in the same process would share every module-level and class-level object of the library
+# (codec defaults, caches) with the engine that served the prefix: state leaking through them would
+# pollute both runs alike. So each worker, before it serves its first request, forks a server that never
+# serves one itself; per query the server forks a child that opens the database copy, answers the probe
+# and exits.
+_PRISTINE = {}
+
+
+def _read_exact(fd, n):
+    out = b''
+    while len(out) < n:
+        c = os.read(fd, n - len(out))
+        if not c:
+            raise EOFError
+        out += c
+    return out
+
+
+def _send_msg(fd, obj):
+    data = pickle.dumps(obj)
+    os.write(fd, struct.pack('!I', len(data)) + data)
+
+
+def _recv_msg(fd):
+    n = struct.unpack('!I', _read_exact(fd, 4))[0]
+    return pickle.loads(_read_exact(fd, n))
+
+
+def _fresh_compute(db_path, t_probe, entropy, constant, probe):
+    W.CLOCK.now = t_probe
+    W.ENTROPY.counter = entropy
+    W.ENTROPY.constant = constant
+    fresh = W.World(policies=W.default_policies({'team': TEAM_POLICY}), db_from=db_path)
+    try:
+        rb = _apply(fresh, PROBE[probe])
+        return (rb.key(), rb.brief(), fresh.raw_key())
+    finally:
+        fresh.close()
+
+
+def _pristine_start():
+    if _PRISTINE.get('owner') == os.getpid():
+        return
+    q_r, q_w = os.pipe()
+    a_r, a_w = os.pipe()
+    pid = os.fork()
+    if pid == 0:
+        os.close(q_w)
+        os.close(a_r)
+        try:
+            while True:
+                try:
+                    msg = _recv_msg(q_r)
+                except EOFError:
+                    break
+                r_, w_ = os.pipe()
+                c = os.fork()
+                if c == 0:
+                    os.close(r_)
+                    try:
+                        res = ('ok', _fresh_compute(*msg))
+                    except BaseException as e:   # noqa
+                        res = ('err', '%s: %s' % (type(e).__name__, e))
+                    try:
+                        _send_msg(w_, res)
+                    finally:
+                        os._exit(0)
+                os.close(w_)
+                try:
+                    res = _recv_msg(r_)
+                except EOFError:
+                    res = ('err', 'child died')
+                os.close(r_)
+                os.waitpid(c, 0)
+                _send_msg(a_w, res)
+        finally:
+            os._exit(0)
+    os.close(q_r)
+    os.close(a_w)
+    _PRISTINE.update(owner=os.getpid(), pid=pid, q=q_w, a=a_r)
+
+
+def _fresh_answer(w, t_probe, entropy, probe):
+    if _PRISTINE.get('owner') != os.getpid():
+        raise RuntimeError("the pristine server must be started before the first request of this process")
+    _send_msg(_PRISTINE['q'], (w.db, t_probe, entropy, W.ENTROPY.constant, probe))
+    kind, res = _recv_msg(_PRISTINE['a'])
+    if kind != 'ok':
+        raise RuntimeError("pristine process failed: %s" % res)
+    return res
+
+
 def run_pair(prefix, probe, part=None):
     """Returns (violates, description)."""
     seed = _seed_db()
@@ -248,16 +343,22 @@ def run_pair(prefix, probe, part=None):
         entropy = W.ENTROPY.counter
         # the fresh-engine answer depends only on (database, clock, entropy, probe): memoise it
         db_before = w.raw_key()
-        ck = (hash(db_before), len(db_before), t_probe, entropy, probe)
+        ck = (hash(db_before), len(db_before), t_probe, entropy, probe, len(prefix) <= 1)
         if ck in _FRESH_CACHE:
             rbk, rb_brief, sb = _FRESH_CACHE[ck]
         else:
-            fresh = w.clone()      # copy of the same database, fresh engine, fresh sessions
-            try:
-                rb = _apply(fresh, PROBE[probe])
-                rbk, rb_brief, sb = rb.key(), rb.brief(), fresh.raw_key()
-            finally:
-                fresh.close()
+            if len(prefix) <= 1:
+                # a copy of the same database, a fresh engine and fresh sessions in a PRISTINE process
+                # (every letter of the alphabet is followed by every probe this way; longer histories
+                # use a fresh engine in this process, which costs a tenth)
+                rbk, rb_brief, sb = _fresh_answer(w, t_probe, entropy, probe)
+            else:
+                fresh = w.clone()
+                try:
+                    rb = _apply(fresh, PROBE[probe])
+                    rbk, rb_brief, sb = rb.key(), rb.brief(), fresh.raw_key()
+                finally:
+                    fresh.close()
             _FRESH_CACHE[ck] = (rbk, rb_brief, sb)
             W.CLOCK.now = t_probe
             W.ENTROPY.counter = entropy
@@ -309,6 +410,7 @@ def histories(tier):
 
 
 def _worker(task):
+    _pristine_start()
     hist, probes = task
     part = Part()
     for prefix in hist:
@@ -368,5 +470,6 @@ def run(tier, seed):
 
 
 def replay(doc):
+    _pristine_start()
     bad, text = run_pair(tuple(doc['prefix']), doc['probe'])
     return bad, text
